@@ -591,7 +591,32 @@ def cmd_load(req):
     return res
 
 
-def make_client(handler):
+class _RecSpan:
+    """Recording span / tracer (opentelemetry-sdk is not installed; the clients only need this surface)."""
+
+    def __init__(self, name, log):
+        self.name, self.attrs = name, {}
+        log.append(self)
+
+    def set_attribute(self, k, v):
+        self.attrs[k] = v
+
+    def __enter__(self):
+        return self
+
+    def __exit__(self, *a):
+        return False
+
+
+class _RecTracer:
+    def __init__(self):
+        self.spans = []
+
+    def start_as_current_span(self, name, context=None, **kw):
+        return _RecSpan(name, self.spans)
+
+
+def make_client(handler, tracer=None):
     import httpx
 
     cls = STATE["client_cls"]
@@ -601,6 +626,8 @@ def make_client(handler):
         http = httpx.AsyncClient(transport=httpx.MockTransport(handler))
     else:
         http = httpx.Client(transport=httpx.MockTransport(handler))
+    if tracer is not None and "tracer" in inspect.signature(cls.__init__).parameters:
+        return cls(url="http://test.local/graphql", http_client=http, tracer=tracer)
     return cls(url="http://test.local/graphql", http_client=http)
 
 
@@ -792,7 +819,9 @@ def cmd_call_args(req):
         out["exc"] = ["args:" + type(exc).__name__, str(exc)[:1500]]
         return out
     out["log_construct"] = _scalar_log()
-    client = make_client(handler)
+    rec_tracer = _RecTracer() if req.get("tracer") else None
+    client = make_client(handler, tracer=rec_tracer)
+    out["tracer_used"] = bool(rec_tracer is not None and getattr(client, "tracer", None) is rec_tracer)
     if "custom" in req:
         # custom operation builder (enable_custom_operations): client.query(Query.<field>(**args), operation_name=...)
         try:
@@ -832,6 +861,8 @@ def cmd_call_args(req):
     except BaseException as exc:  # noqa
         out["exc"] = [type(exc).__name__, str(exc)[:600]]
     out["log_call"] = _scalar_log()
+    if rec_tracer is not None:
+        out["spans"] = [[sp.name, sorted(sp.attrs)] for sp in rec_tracer.spans][:20]
     if captured.get("query") is not None:
         try:
             out["sent"] = record_run(captured["query"], captured.get("variables"), captured.get("operationName"))
